@@ -6,6 +6,7 @@ import (
 	"crypto/x509"
 	"fmt"
 	"math/big"
+	"strings"
 
 	"verif/mc/drive"
 	"verif/mc/engine"
@@ -31,6 +32,9 @@ type c01Case struct {
 	Tier3     bool   `json:"tier3,omitempty"`
 	// origin
 	Origin string `json:"origin,omitempty"`
+	// history: a settled 3-tier chain, one operation on entity Ent, then a default run
+	Op  int `json:"op,omitempty"`
+	Ent int `json:"ent,omitempty"`
 }
 
 func acyclic(parent []int) bool {
@@ -109,6 +113,13 @@ func c01Enumerate(tier string, yield func(any)) {
 			yield(&c01Case{Kind: "algs", IssuerAlg: ia, SubjAlg: map[bool]string{true: "P-384", false: "RSA-2048"}[c05Family(ia) == "EC"], SigAlg: s, Tier3: true, Profile: true})
 		}
 	}
+	for op := range c01HistoryOps {
+		for ent := 0; ent < 3; ent++ {
+			for _, prof := range []bool{false, true} {
+				yield(&c01Case{Kind: "history", Op: op, Ent: ent, Profile: prof})
+			}
+		}
+	}
 	for _, o := range c01Origins {
 		for _, prof := range []bool{false, true} {
 			yield(&c01Case{Kind: "origin", Origin: o, Profile: prof})
@@ -132,6 +143,81 @@ func c01Exec(x *engine.Ctx, cc any) {
 		c01Algs(x, c)
 	case "origin":
 		c01Origin(x, c)
+	case "history":
+		c01History(x, c)
+	}
+}
+
+var c01HistoryOps = []string{"delete-artifact", "replace-by-key-only", "strip-certificate", "edit-subject", "strip-key", "change-key-algorithm"}
+
+// c01History: the directory is not fresh - one entity's artifact or config was touched since the
+// last run. After the next successful default run every certificate must again verify under the
+// CURRENT certificate of its issuer.
+func c01History(x *engine.Ctx, c *c01Case) {
+	d := &Dir{}
+	prof := ""
+	if c.Profile {
+		d.Profiles = append(d.Profiles, c01Profile())
+		prof = "kid"
+	}
+	names := []string{"root", "sub", "leaf"}
+	for i, n := range names {
+		cfg := &refcfg.CertCfg{Path: n + ".yaml", Subject: "CN=" + n, KeyAlg: "P-256", Profile: prof}
+		if i > 0 {
+			cfg.Issuer = names[i-1]
+		}
+		d.Certs = append(d.Certs, cfg)
+	}
+	g := Generate(d, nil, drive.Default)
+	if !g.Res.OK() {
+		x.Violation("C01/run-failed/history", fmt.Sprint(g.Res.Err()))
+		return
+	}
+	w := g.W
+	cfg := d.Certs[c.Ent]
+	art := ArtifactPath(cfg.Path)
+	pf := refx509.SplitPem(w.Files[art].Data)
+	switch c01HistoryOps[c.Op] {
+	case "delete-artifact":
+		w.Remove(art)
+	case "replace-by-key-only":
+		w.PutAt(art, FixtureKeyPEM("P-384-0"), 1) // an old file: older than everything else
+	case "strip-certificate":
+		w.Put(art, append([]byte("#HASH:"+*pf.HashLine+"\n"), refx509.EncodePem("PRIVATE KEY", pf.KeyDER)...))
+	case "edit-subject":
+		cfg.Subject += " renamed"
+		w.Put(cfg.Path, cfg.YAML())
+	case "strip-key":
+		w.Put(art, append([]byte("#HASH:"+*pf.HashLine+"\n"), refx509.EncodePem("CERTIFICATE", pf.CertDER)...))
+	case "change-key-algorithm":
+		cfg.KeyAlg = "P-521"
+		w.Put(cfg.Path, cfg.YAML())
+		w.Remove(art)
+	}
+	g2 := &GenResult{W: w, Before: w.Clone(), RunStart: g.RunStart}
+	g2.Res = drive.Run(w, drive.Default, nil)
+	g2.RunEnd = g.RunEnd + 5
+	x.Nontrivial(fmt.Sprintf("history %d %d %v", c.Op, c.Ent, c.Profile))
+	if g2.Res.Panic != "" {
+		x.Violation("C01/panic/"+g2.Res.PanicSite, g2.Res.Panic)
+		return
+	}
+	if !g2.Res.OK() {
+		x.Outcome("history: run failed")
+		return
+	}
+	x.Outcome("history " + c01HistoryOps[c.Op])
+	for _, e := range d.Certs {
+		diffs, _, err := g2.CompareEntity(d, AliasOf(e), "")
+		if err != nil {
+			x.Violation("C01/history/no-certificate op="+c01HistoryOps[c.Op], err.Error())
+			continue
+		}
+		for _, df := range diffs {
+			if df.Owner == "C01" {
+				x.Violation("C01/history/"+strings.TrimPrefix(df.Class, "C01/")+" op="+c01HistoryOps[c.Op], fmt.Sprintf("after %s on %s and a default run, entity %s: %s", c01HistoryOps[c.Op], names[c.Ent], AliasOf(e), df.Detail))
+			}
+		}
 	}
 }
 
@@ -371,7 +457,7 @@ func init() {
 	register(&engine.Check{
 		ID:          "C01",
 		Level:       "exploration",
-		Rule:        "(a) every rooted forest on <=3 (quick) / <=4 (thorough) entities x 3 alias/directory layouts x with/without a profile adding subjectKeyIdentifier+authorityKeyIdentifier hash; (b) issuer key algorithm (14) x subject key algorithm (6 representatives quick / 14 thorough) x signature algorithm (8 + omitted) two-tier worlds with fixture keys, the 14 x 9 self-signed roots, and a three-tier chain per issuer kind x 9; (c) issuer artifact origin {earlier gopki run, foreign certificate with PrintableString / UTF8String non-ASCII / UTF8String for a printable value / IA5String e-mail / multi-valued RDN / TeletexString}. Oracle per written certificate: signature verifies with the algorithm its signatureAlgorithm names under the SPKI of the issuer's current certificate file, issuer DN bytes = that certificate's subject DN bytes, hash key ids = SHA-1 of the respective key bits, child AKI = issuer SKI; misfit of algorithm and signing key => run fails and no certificate. non-trivial = distinct case executed",
+		Rule:        "(a) every rooted forest on <=3 (quick) / <=4 (thorough) entities x 3 alias/directory layouts x with/without a profile adding subjectKeyIdentifier+authorityKeyIdentifier hash; (b) issuer key algorithm (14) x subject key algorithm (6 representatives quick / 14 thorough) x signature algorithm (8 + omitted) two-tier worlds with fixture keys, the 14 x 9 self-signed roots, and a three-tier chain per issuer kind x 9; (c) 36 histories on a settled 3-tier chain (delete artifact / replace by an old key-only file / strip certificate / edit subject / strip key / change key algorithm, on each entity, with and without key-id profile) followed by a default run, after which every certificate must verify under its issuer's current certificate; (d) issuer artifact origin {earlier gopki run, foreign certificate with PrintableString / UTF8String non-ASCII / UTF8String for a printable value / IA5String e-mail / multi-valued RDN / TeletexString}. Oracle per written certificate: signature verifies with the algorithm its signatureAlgorithm names under the SPKI of the issuer's current certificate file, issuer DN bytes = that certificate's subject DN bytes, hash key ids = SHA-1 of the respective key bits, child AKI = issuer SKI; misfit of algorithm and signing key => run fails and no certificate. non-trivial = distinct case executed",
 		Bound:       map[string]string{"forest size": "quick<=3 thorough<=4"},
 		Assumptions: []string{"configurations with manipulations are C19's", "Go's crypto/ecdsa, crypto/rsa and the keybase brainpool curve parameters are trusted for verification"},
 		Budget:      budgets(quickBudget, thoroughBudget),
